@@ -1200,6 +1200,25 @@ def read_all_idle_branches_share_rekey_test():
     return True
 
 
+def send_message_callers():
+    """Every method of paramiko/transport.py that calls `self._send_message(...)` directly (bypassing the
+    clear_to_send gate), as `Class.method` names in source order.  None if unreadable."""
+    import paramiko.transport as T
+
+    try:
+        tree = ast.parse(open(T.__file__, encoding="utf-8").read())
+    except (OSError, SyntaxError):
+        return None
+    out = []
+    for cls in [n for n in tree.body if isinstance(n, ast.ClassDef)]:
+        for f in cls.body:
+            if isinstance(f, ast.FunctionDef) and any(
+                    isinstance(c, ast.Call) and isinstance(c.func, ast.Attribute) and c.func.attr == "_send_message"
+                    for c in ast.walk(f)):
+                out.append("%s.%s" % (cls.name, f.name))
+    return out
+
+
 def overflow_test_facts():
     """From the AST of Packetizer.read_message: inside `if self.__need_rekey:` the test that raises "ignoring rekey
     requests" compares which counters with which limits?  Returns [(counter attribute, limit attribute)] (names
@@ -1264,6 +1283,8 @@ def lean_channel_table(sites, takes, handlers, gate):
         "def sendTimeoutReadsClock : Bool := %s\n\n"
         "/-- Packetizer.read_all: socket.timeout and socket.error(EAGAIN) reach one and the same NeedRekeyException test -/\n"
         "def readAllIdleBranchesShareRekeyTest : Bool := %s\n\n"
+        "/-- the methods of transport.py that call `_send_message` directly (not through the clear_to_send gate) -/\n"
+        "def sendMessageCallers : List String := [%s]\n\n"
         "end PV.Generated.C11\n" % (rows, hrows, "true" if gate["rechecks_under_lock"] else "false",
                                       "true" if gate["clears_before_write"] else "false",
                                       ", ".join('("%s", "%s")' % p for p in (gate.get("overflow_tests") or [])),
@@ -1273,7 +1294,8 @@ def lean_channel_table(sites, takes, handlers, gate):
                                       "true" if gate.get("keepalive_guard") else "false",
                                       "true" if gate.get("recv_sends_every_ack") else "false",
                                       "true" if gate.get("send_timeout_reads_clock") else "false",
-                                      "true" if gate.get("read_all_idle_shared") else "false")
+                                      "true" if gate.get("read_all_idle_shared") else "false",
+                                      ", ".join('"%s"' % x for x in (gate.get("send_message_callers") or [])))
     )
 
 
@@ -1290,6 +1312,7 @@ def write_generated_c11(ctx):
     gate["recv_sends_every_ack"] = recv_sends_every_computed_ack()
     gate["send_timeout_reads_clock"] = send_timeout_reads_clock()
     gate["read_all_idle_shared"] = read_all_idle_branches_share_rekey_test()
+    gate["send_message_callers"] = send_message_callers()
     ctx.extra["send_gate_facts"] = gate
     ctx.write_generated("C11", lean_channel_table(sites, takes, handlers, gate))
     return sites, takes, handlers
